@@ -4,9 +4,12 @@ Property C13 — recorded artifacts are exactly the files present, with correct 
 ONLY property theorems live here (helper lemmas: InToto/Proofs/Record.lean).
 Model: InToto/Model/Record.lean.  Carried by proof: line-ending normalisation, the per-node rules of
 the walk (file symlinks always followed, directory symlinks on request, unknown algorithm /
-collision / missing path = error), panic-freedom, match-products set algebra.  Correspondence only:
-that the walk visits exactly the files (tie on generated trees), go-pathspec patterns, symlink
-cycles, OS errors, the before/after order of run and record start/stop.
+collision / missing path = error), panic-freedom, match-products set algebra; for every tree —
+symbolic links included — exactly the reached files are recorded, under pairwise distinct stripped
+names (repair of finding F19: the names of file links and of the files behind a followed directory
+link are stripped and checked for uniqueness like those of regular files).  Correspondence only:
+go-pathspec patterns, symlink cycles, OS errors, the before/after order of run and record
+start/stop.
 -/
 import InToto.Proofs.Record
 import InToto.Generated.Facts
@@ -32,12 +35,23 @@ theorem normalize_idempotent (l : List UInt8) : normalize (normalize l) = normal
 theorem normalize_identity_without_cr (l : List UInt8) (h : (0x0D : UInt8) ∉ l) : normalize l = l :=
   normalize_id_of_no_cr l h
 
-/-- C13: file symlinks are ALWAYS followed, whatever the follow-directories switch says -/
+/-- C13: file symlinks are ALWAYS followed, whatever the follow-directories switch says: the link is
+    recorded under its OWN path with the first matching strip prefix removed, with the digests of
+    the target's bytes; a name that is already taken is an error (as for a regular file) -/
 theorem file_symlink_always_followed (cfg : Cfg) (fuel : Nat) (path : Str) (d : List (Str × Str)) (acc : ArtMap)
     (h : List (Str × Str)) (hi : cfg.ignored path = false) (hh : hashObj d cfg.algs = some h) :
     visit cfg (fuel + 1) path (.symFile d) acc =
-      .ok (amSet acc (if cfg.noStripSymlink then path else stripPath cfg.lstrip path) h) :=
+      if (lookup (stripPath cfg.lstrip path) acc).isSome then .err "not-unique"
+      else .ok (acc ++ [(stripPath cfg.lstrip path, h)]) :=
   symFile_always_recorded cfg fuel path d acc h hi hh
+
+/-- C13: a file symlink whose stripped name is already taken is the uniqueness error ("left stripping
+    has resulted in non unique dictionary key"), never a silently replaced record -/
+theorem colliding_symlink_name_is_an_error (cfg : Cfg) (fuel : Nat) (path : Str) (d : List (Str × Str))
+    (acc : ArtMap) (h v : List (Str × Str)) (hi : cfg.ignored path = false)
+    (hh : hashObj d cfg.algs = some h) (hc : lookup (stripPath cfg.lstrip path) acc = some v) :
+    visit cfg (fuel + 1) path (.symFile d) acc = .err "not-unique" :=
+  WalkProofs.colliding_symlink_name_is_an_error cfg fuel path d acc h v hi hh hc
 
 /-- C13: directory symlinks only on request -/
 theorem dir_symlink_only_on_request (cfg : Cfg) (fuel : Nat) (path : Str) (ch : List (Str × Node)) (acc : ArtMap)
@@ -120,22 +134,62 @@ theorem unhashable_file_fails_the_walk (cfg : Cfg) (fuel : Nat) (path : Str) (no
     there before or is the entry of a file the walk REACHES (`FileAtS`: a file link counts at the
     link's own path, the files behind a directory link count, re-rooted at the link, exactly when
     the follow switch is set and the link is not excluded) and that is not excluded: key = its path
-    with the first matching strip prefix removed, value = its digests.  (Recorded finding F19 — no
-    stripping for file links — excluded by hypothesis.) -/
-theorem with_symlinks_nothing_invented (cfg : Cfg) (hq : cfg.noStripSymlink = false) (roots : List (Str × Option Node))
+    with the first matching strip prefix removed, value = its digests. -/
+theorem with_symlinks_nothing_invented (cfg : Cfg) (roots : List (Str × Option Node))
     (acc m : ArtMap) (h : recordArtifacts cfg roots acc = .ok m) (e : Str × List (Str × Str)) (he : e ∈ m) :
     e ∈ acc ∨ ∃ p n q d hh, (p, some n) ∈ roots ∧ FileAtS cfg p n q d ∧ cfg.ignored q = false ∧
       hashObj d cfg.algs = some hh ∧ e = (stripPath cfg.lstrip q, hh) :=
-  recordArtifacts_sym_sound cfg hq roots acc m h e he
+  recordArtifacts_sym_sound cfg roots acc m h e he
 
 /-- C13 (symbolic links: nothing missed): every reached, non-excluded file has an entry under its
-    stripped path (two reached files may share a key when links are followed; the later replaces
-    the earlier, so this is completeness of the KEYS, exactness holds on symlink-free trees) -/
-theorem with_symlinks_nothing_missed (cfg : Cfg) (hq : cfg.noStripSymlink = false) (roots : List (Str × Option Node))
+    stripped path (two reached files never share a name: on success all names are pairwise distinct,
+    see `names_unique_with_symlinks`, and the entries are exactly those of the reached files, see
+    `with_symlinks_exactly_the_reached_files`) -/
+theorem with_symlinks_nothing_missed (cfg : Cfg) (roots : List (Str × Option Node))
     (acc m : ArtMap) (h : recordArtifacts cfg roots acc = .ok m) (p : Str) (n : Node) (hr : (p, some n) ∈ roots)
     (q : Str) (d : List (Str × Str)) (hf : FileAtS cfg p n q d) (hi : cfg.ignored q = false) :
     (lookup (stripPath cfg.lstrip q) m).isSome = true :=
-  recordArtifacts_sym_complete cfg hq roots acc m h p n hr q d hf hi
+  recordArtifacts_sym_complete cfg roots acc m h p n hr q d hf hi
+
+/-- C13 (one entry per name, symbolic links included): whatever the trees look like — file links,
+    directory links followed or not — the names recorded by a successful `RecordArtifacts` are
+    pairwise distinct: two reached files that would be recorded under one name are an error, never a
+    silent overwrite -/
+theorem names_unique_with_symlinks (cfg : Cfg) (roots : List (Str × Option Node)) (r : ArtMap)
+    (h : recordArtifacts cfg roots [] = .ok r) : (r.map Prod.fst).Nodup :=
+  WalkProofs.names_unique_with_symlinks cfg roots r h
+
+/-- … also when starting from entries recorded before, provided their names are pairwise distinct -/
+theorem names_stay_unique_with_symlinks (cfg : Cfg) (roots : List (Str × Option Node)) (acc m : ArtMap)
+    (h : recordArtifacts cfg roots acc = .ok m) (hn : (acc.map Prod.fst).Nodup) : (m.map Prod.fst).Nodup :=
+  recordArtifacts_sym_nodup cfg roots acc m h hn
+
+/-- C13 (symbolic links: exactly the reached files): with the uniqueness check on every recorded
+    name, nothing-invented and nothing-missed sharpen to exactness on ANY tree — an entry is in the
+    result iff it was there before or it is the entry (stripped path, digests) of a reached,
+    non-excluded file -/
+theorem with_symlinks_exactly_the_reached_files (cfg : Cfg) (roots : List (Str × Option Node)) (acc m : ArtMap)
+    (h : recordArtifacts cfg roots acc = .ok m) (e : Str × List (Str × Str)) :
+    e ∈ m ↔ e ∈ acc ∨ ∃ p n q d hh, (p, some n) ∈ roots ∧ FileAtS cfg p n q d ∧ cfg.ignored q = false ∧
+      hashObj d cfg.algs = some hh ∧ e = (stripPath cfg.lstrip q, hh) :=
+  recordArtifacts_sym_mem cfg roots acc m h e
+
+/-- non-vacuity: a directory "r1" with a regular file "f" and a file link "ln", prefix "r1/" stripped:
+    exactly the names "f" and "ln" (BOTH stripped), each with its digests -/
+example : recordArtifacts { algs := [lit% "sha256"], ignored := fun _ => false, lstrip := [lit% "r1/"], followDirs := false }
+    [(lit% "r1", some (.dir [(lit% "f", .file [(lit% "sha256", lit% "aa")]),
+                              (lit% "ln", .symFile [(lit% "sha256", lit% "bb")])]))] [] =
+    .ok [(lit% "f", [(lit% "sha256", lit% "aa")]), (lit% "ln", [(lit% "sha256", lit% "bb")])] := by rfl
+
+/-- non-vacuity: a file link "r2/f" colliding after stripping with the regular file "r1/f" is the error … -/
+example : recordArtifacts { algs := [lit% "sha256"], ignored := fun _ => false, lstrip := [lit% "r1/", lit% "r2/"], followDirs := false }
+    [(lit% "r1", some (.dir [(lit% "f", .file [(lit% "sha256", lit% "aa")])])),
+     (lit% "r2", some (.dir [(lit% "f", .symFile [(lit% "sha256", lit% "bb")])]))] [] = .err "not-unique" := by rfl
+
+/-- … and so is a file behind a followed directory link ("r2/d/f" with the prefix "r2/d/" stripped) -/
+example : recordArtifacts { algs := [lit% "sha256"], ignored := fun _ => false, lstrip := [lit% "r1/", lit% "r2/d/"], followDirs := true }
+    [(lit% "r1", some (.dir [(lit% "f", .file [(lit% "sha256", lit% "aa")])])),
+     (lit% "r2", some (.dir [(lit% "d", .symDir [(lit% "f", .file [(lit% "sha256", lit% "bb")])])]))] [] = .err "not-unique" := by rfl
 
 /-- C13 (the follow switch off): nothing is recorded for what lies behind a directory link -/
 theorem directory_link_not_followed_records_nothing (cfg : Cfg) (hf : cfg.followDirs = false) (fuel : Nat) (path : Str)
